@@ -240,6 +240,13 @@ func judgeTape(tp *Tape, o Outcome) (bool, string) {
 				return true, ""
 			}
 			return false, "engine hit its loop bound but the native run terminated (bound too small, not a violation)"
+		case strings.HasPrefix(want, "asm-"):
+			// obligations of the assembly model (out-of-bounds access, clobbered register): any
+			// native misbehaviour confirms them
+			if o.Fail != "" || o.Panic != "" || o.Crash || o.Hang {
+				return true, ""
+			}
+			return false, "engine predicted an out-of-bounds access by the assembly, the native run shows no misbehaviour"
 		case strings.HasPrefix(want, "no-panic"):
 			if o.Panic != "" || o.Crash {
 				return true, ""
